@@ -14,7 +14,7 @@ from lib import gen, lang as L, refsem, polar_driver as pd, common
 PROPERTY_ID = "C17"
 RULE = (
     "programs from the C01 generator with 1-2 goals; per case 3 option vectors out of {cond2arithm, transform_categoricals, both, forced cyclic solver, "
-    "explicit types block for the finite variables (inference still on), explicit types + disable_type_inference, numeric_roots (eps 1e-10), numeric_croots, "
+    "explicit types block for the finite variables as Finite(..) or FiniteRange(lo, hi) (inference still on), explicit types + disable_type_inference, numeric_roots (eps 1e-10), numeric_croots, "
     "numeric_roots+forced cyclic}; non-trivial = at least one alternative vector succeeded and the option changed something observable (normal form text, "
     "solver class) or the program has a choice/condition; distinct by (program, goals, vectors)"
 )
@@ -24,7 +24,7 @@ ASSUMPTIONS = [
     "rounded results: |value - baseline| <= 1e-3 * max(1, (|A|^n |v|)_i) with A, v the recurrence system of that run",
 ]
 
-VECTORS = ["cond2arithm", "transform_categoricals", "both", "force_cyclic", "types", "types_noinfer", "numeric_roots", "numeric_croots", "numeric_roots_cyclic"]
+VECTORS = ["cond2arithm", "transform_categoricals", "both", "force_cyclic", "types", "types_range", "types_noinfer", "numeric_roots", "numeric_croots", "numeric_roots_cyclic"]
 
 
 def budget(tier):
@@ -48,9 +48,19 @@ def strategy(tier):
     return cases(tier)
 
 
-def _with_types(prog, meta):
+def _with_types(prog, meta, ranges=False):
+    from fractions import Fraction as Fr
+
     p2 = dict(prog)
-    p2["types"] = {f: ["Finite", list(D)] for f, D in meta["fin"].items()}
+    types = {}
+    for f, D in meta["fin"].items():
+        vals = sorted(Fr(x) for x in D)
+        consecutive = all(v.denominator == 1 for v in vals) and all(b - a == 1 for a, b in zip(vals, vals[1:]))
+        if ranges and consecutive:
+            types[f] = ["FiniteRange", [str(vals[0]), str(vals[-1])]]
+        else:
+            types[f] = ["Finite", list(D)]
+    p2["types"] = types
     return p2
 
 
@@ -110,6 +120,8 @@ def run_case(case, tier="quick"):
         return dict(base, status="inconclusive", bucket="polar_time_limit")
     except Exception as e:
         return dict(base, status="refusal", bucket="baseline:" + pd.refusal_bucket(e), detail=str(e)[:200])
+    if any(isinstance(v, pd.CaseTimeout) for v in base_res.values()):
+        return dict(base, status="inconclusive", bucket="polar_time_limit")
     good = {k: v for k, v in base_res.items() if not isinstance(v, Exception)}
     if not good:
         return dict(base, status="refusal", bucket="baseline_goal:" + pd.refusal_bucket(next(iter(base_res.values()))))
@@ -129,10 +141,10 @@ def run_case(case, tier="quick"):
             opts = {"cond2arithm": True, "transform_categoricals": True}
         elif vec == "force_cyclic":
             force = True
-        elif vec in ("types", "types_noinfer"):
+        elif vec in ("types", "types_range", "types_noinfer"):
             if not case["meta"]["fin"]:
                 continue
-            t2 = L.render_program(_with_types(prog, case["meta"]))
+            t2 = L.render_program(_with_types(prog, case["meta"], ranges=(vec == "types_range")))
             if vec == "types_noinfer":
                 opts = {"disable_type_inference": True}
         elif vec == "numeric_roots":
@@ -147,14 +159,16 @@ def run_case(case, tier="quick"):
             with pd.time_limit(tl * 2):
                 res, nf = _run(t2, opts, [m for m in case["goals"] if pd.monomial_to_str(m) in good], force, tl)
         except pd.CaseTimeout:
-            refusals[vec] = "time_limit"
-            continue
+            # nothing further is evaluated in this process after an interrupted sympy computation
+            return dict(base, status="inconclusive", bucket="time_limit")
         except Exception as e:
             refusals[vec] = pd.refusal_bucket(e)
             continue
         for k, r in res.items():
+            if isinstance(r, pd.CaseTimeout):
+                return dict(base, status="inconclusive", bucket="time_limit")
             if isinstance(r, Exception):
-                refusals[vec] = refusals.get(vec) or (pd.refusal_bucket(r) if not isinstance(r, pd.CaseTimeout) else "time_limit")
+                refusals[vec] = refusals.get(vec) or pd.refusal_bucket(r)
                 continue
             expr, exact, solver, recs = r
             bexpr, bexact, bsolver, brecs = good[k]
@@ -187,7 +201,7 @@ def run_case(case, tier="quick"):
                                                 "baseline_form": str(bexpr)[:400], "alternative_form": str(expr)[:400], "flag_exact": exact, "exact_interpreter": side})
                     compared += 1
             except pd.CaseTimeout:
-                refusals[vec] = "evaluation_time_limit"
+                return dict(base, status="inconclusive", bucket="evaluation_time_limit")
     for vec, b in refusals.items():
         tags.append(f"refused:{vec}")
     has_cond = any(t in tags for t in ("choice", "if", "guard"))
